@@ -60,6 +60,9 @@ def generate(seed):
     knobs = G.default_knobs(r)
     g = G.Gen(r, knobs)
     d0 = g.top_doc()
+    if knobs["casts"] and isinstance(d0, dict) and r.random() < 0.6:
+        # make sure there is something a nested cast can really act on
+        d0[r.choice(["cfg", "a", "opts"])] = {"flag": r.choice(["true", "False", "yes"]), "n": r.choice(["3", "12", "x"]), "sub": {"m": r.choice(["7", "true"])}}
     docs = [d0] + [g.variant(d0) for _ in range(r.randint(1, 3))]
     ctx = g.context(docs)
 
@@ -272,6 +275,7 @@ def run(case):
 
     mon = Monitor()
     _register_world(mon, shared)
+    shared.kept = []  # result objects handed to callers, re-read at the end
 
     scripted = "decisions" in case
     n = len(programs)
@@ -350,6 +354,23 @@ def run(case):
                 )
                 break
         eng.check_digests("after epilogue")
+    # results handed out earlier must still read the same now
+    rechecked = 0
+    if not eng.violations:
+        for obj, fn, c in shared.kept:
+            try:
+                now = fn(obj)
+            except Exception as e:
+                now = ("raise", type(e).__name__)
+            rechecked += 1
+            if now != c:
+                kind = c[0] if isinstance(c, tuple) and c and isinstance(c[0], str) else "value"
+                eng.add_violation(
+                    "earlier_result_changed_later",
+                    f"{kind}:{first_diff_field(('ok', c), ('ok', now)) if not (isinstance(now, tuple) and now and now[0] == 'raise') else 'raise:' + now[1]}",
+                    {"result_kind": kind, "at_return": _short(c), "at_end_of_run": _short(now)},
+                )
+                break
 
     run_case = dict(case)
     run_case["decisions"] = list(eng.decisions)
@@ -375,6 +396,7 @@ def run(case):
         "steps": eng.step,
         "ops": sum(len(p) for p in programs),
         "ops_compared_with_fresh": compared,
+        "results_reread_at_end": rechecked,
         "ops_aborted": aborted,
         "context_switches": eng.switches,
         "mid_operation_switches": eng.mid_op_switches,
